@@ -46,13 +46,15 @@ def draw_case(data, tier):
                 sig.append([t, c])
         sig = [sig[i] for i in data.draw(st.permutations(list(range(len(sig)))), label="sigorder")]
     else:
-        sig = gen.draw_signature(data, d, kmax=2, min_types=1, max_types=4, cmax=3)
+        sig = gen.draw_signature(data, d, kmax=2, min_types=data.draw(st.sampled_from([1, 2, 2, 2]), label="min_types"), max_types=4, cmax=3)
     nlead = data.draw(st.integers(1, 2), label="nlead")
     batch = data.draw(st.sampled_from([2, 5]), label="batch") if nlead == 2 else None
     nops = data.draw(st.integers(2, 3), label="n_operands")
     operands = []
     for _ in range(nops):
         order = list(data.draw(st.permutations(list(range(len(sig)))), label="order"))
+        if operands and data.draw(st.booleans(), label="reverse_of_first"):
+            order = operands[0]["order"][::-1]
         method = data.draw(st.sampled_from(["dict", "append", "concat", "from_vector"]), label="method")
         nrt = data.draw(st.integers(0, 2), label="n_roundtrips")
         rts = [data.draw(st.sampled_from(ROUNDTRIPS if nlead == 2 else [r for r in ROUNDTRIPS if r != "vmap"]), label="rt") for _ in range(nrt)]
@@ -61,9 +63,13 @@ def draw_case(data, tier):
     nsteps = data.draw(st.integers(1, 6 if tier == "quick" else 10), label="nsteps")
     prog = []
     npool = nops
-    for _ in range(nsteps):
+    for step_no in range(nsteps):
         op = data.draw(st.sampled_from(["add", "sub", "add", "sub", "mul", "div", "roundtrip", "reorder"]), label="op")
         i = data.draw(st.integers(0, npool - 1), label="i")
+        if step_no == 0:  # the first step always combines the two independently built operands
+            prog.append({"op": data.draw(st.sampled_from(["add", "sub"]), label="first_op"), "i": 0, "j": 1})
+            npool += 1
+            continue
         if op in ("add", "sub"):
             prog.append({"op": op, "i": i, "j": data.draw(st.integers(0, npool - 1), label="j")})
         elif op == "mul":
